@@ -830,7 +830,7 @@ impl Engine for Text {
                         let wr = l.wrap(&r);
                         for (label, got) in &outs {
                             let exp = match (*label, fits) {
-                                ("plain", true) | ("parse()", true) | ("saturating", true) | ("wrapping", _) => Exp::Is(Out::V(wr)),
+                                ("plain", true) | ("parse()", true) | ("saturating", true) | ("wrapping", _) | ("Wrapping.parse()", _) | ("Wrapping::from_str", _) | ("Wrapping::from_str_radix", _) => Exp::Is(Out::V(wr)),
                                 ("plain", false) | ("parse()", false) => {
                                     if overflow_error_ok(got) {
                                         Exp::Free
